@@ -1,13 +1,17 @@
 #!/bin/sh
 # usage: tools/seedtest.sh <patch.diff> <property id> [tier]
-# applies a seeded change to /repo, runs the check, and always restores /repo
+# Runs the check of a property against a scratch worktree of /repo's HEAD with a
+# seeded change applied (VERIF_REPO); /repo itself is never touched, no
+# evidence is written, and the worktree is removed afterwards.
 set -u
 P="$(realpath "$1")"; ID="$2"; TIER="${3:-quick}"
+WT=/tmp/seedwt.$$
 cd /verif
-if ! git -C /repo apply --check "$P" 2>/dev/null; then echo "seedtest: patch does not apply: $P"; exit 3; fi
-git -C /repo apply "$P"
-./check "$ID" --tier "$TIER" > build/seedtest.$$.log 2>&1; rc=$?
-git -C /repo checkout -- . 
+git -C /repo worktree add -q --detach "$WT" HEAD || exit 3
+if ! git -C "$WT" apply --check "$P" 2>/dev/null; then echo "seedtest: patch does not apply: $P"; git -C /repo worktree remove --force "$WT"; exit 3; fi
+git -C "$WT" apply "$P"
+VERIF_REPO="$WT" ./check "$ID" --tier "$TIER" > build/seedtest.$$.log 2>&1; rc=$?
+git -C /repo worktree remove --force "$WT"
 grep -E "^VIOLATION|^KNOWN|tier=" build/seedtest.$$.log
 echo "seedtest: $P on $ID -> exit $rc"
 rm -f build/seedtest.$$.log
